@@ -22,6 +22,7 @@ import (
 	"strconv"
 	"strings"
 	"sync"
+	"sync/atomic"
 	"syscall"
 	"time"
 )
@@ -308,6 +309,12 @@ func parentMain(cfg *Config, tier string, seed int64, replay string) int {
 			defer func() { <-sem }()
 			from := b.from
 			for from < b.to {
+				if atomic.LoadInt32(&stallCount) >= maxStalls {
+					// too many stuck cases already: do not burn hours of watchdog time, the run is
+					// reported with what was observed (stalls are violations or inconclusive cases)
+					atomic.AddInt32(&skippedBatches, 1)
+					return
+				}
 				recs, crashed, next := runChild(cfg, self, tier, seed, work, bi, from, b.to, extraEnv, replay != "")
 				mu.Lock()
 				p.Records = append(p.Records, recs...)
@@ -407,15 +414,17 @@ func parentMain(cfg *Config, tier string, seed int64, replay string) int {
 
 	// Evidence
 	cov := map[string]interface{}{
-		"evaluations":         len(p.Records),
-		"distinct_nontrivial": len(sigs),
-		"rule":                cfg.Rule,
-		"samples":             samples,
-		"cases_planned":       n,
-		"child_crashes":       crashes,
-		"inconclusive_cases":  len(p.Inconcl),
-		"counters":            p.Counters,
-		"known_findings_seen": knownSeen,
+		"evaluations":                           len(p.Records),
+		"distinct_nontrivial":                   len(sigs),
+		"rule":                                  cfg.Rule,
+		"samples":                               samples,
+		"cases_planned":                         n,
+		"child_crashes":                         crashes,
+		"watchdog_firings":                      atomic.LoadInt32(&stallCount),
+		"batches_skipped_after_too_many_stalls": atomic.LoadInt32(&skippedBatches),
+		"inconclusive_cases":                    len(p.Inconcl),
+		"counters":                              p.Counters,
+		"known_findings_seen":                   knownSeen,
 	}
 	dist := map[string]int{}
 	for k, v := range p.Sets {
@@ -498,6 +507,9 @@ func parentMain(cfg *Config, tier string, seed int64, replay string) int {
 		fmt.Printf("INCONCLUSIVE property=%s data race inside the harness\n", cfg.Prop)
 		return 2
 	}
+	if atomic.LoadInt32(&skippedBatches) > 0 {
+		p.Inconcl = append(p.Inconcl, fmt.Sprintf("%d batches not run after %d watchdog firings", skippedBatches, stallCount))
+	}
 	if len(p.Inconcl) > 0 {
 		for i, s := range p.Inconcl {
 			if i < 10 {
@@ -564,6 +576,7 @@ wait:
 			}
 			if time.Since(lastChange) > timeout {
 				timedOut = true
+				atomic.AddInt32(&stallCount, 1)
 				syscall.Kill(cmd.Process.Pid, syscall.SIGQUIT)
 				select {
 				case werr = <-done:
@@ -666,6 +679,14 @@ func crashExcerpt(stderr string) string {
 	}
 	return e
 }
+
+// stall accounting (watchdog firings) across all children of a run
+var (
+	stallCount     int32
+	skippedBatches int32
+)
+
+const maxStalls = 12
 
 var goroutineHdr = regexp.MustCompile(`(?m)^goroutine (\d+) (?:gp=\S+ m=\S+ (?:mp=\S+ )?)?\[([^\]]*)\]:`)
 
@@ -879,8 +900,9 @@ func (k knownFinding) matches(v Violation) bool {
 }
 
 // known_findings.txt lines:
-//   known: property=C05 class=<class> <free text>
-//   fixed: property=C01 <commit> <free text>       (suppresses nothing)
+//
+//	known: property=C05 class=<class> <free text>
+//	fixed: property=C01 <commit> <free text>       (suppresses nothing)
 func loadKnownFindings(prop string) []knownFinding {
 	b, err := os.ReadFile(filepath.Join(VerifDir, "known_findings.txt"))
 	if err != nil {
